@@ -1,5 +1,14 @@
-"""C04 — assertions addressed to someone else are never accepted."""
+"""C04 — assertions addressed to someone else are never accepted.
+
+A case is either ONE Response presented to a provider (the keys rs/dest/recip/conv/binding/cfg) or a
+SEQUENCE of calls on several long-lived provider objects living in one process (the keys sps/steps).
+Every sequence is observed in a process forked from one in which no provider object has ever been used
+(see _zygote): the observation is a function of the case alone, also when the code under test keeps
+state between calls or shares it between objects, so a failing sequence replays."""
 import itertools
+import json
+import os
+import traceback
 
 from harness import env, render, spaccept, world
 from harness.common import Raw, cq, cq_opt
@@ -10,17 +19,30 @@ IMPORTS = "From Verif Require Import C04.Model C04.Spec C04.Corr."
 CASE_TYPE = "C04.Corr.case"
 RUNNER = "C04.Corr.run"
 FINDING_CLASSES = {1: "C04-F1"}
-RULE = ("complete enumeration of audience structures up to 2 restrictions x 2 audiences over an 8-value alphabet "
+RULE = ("(1) single Responses: complete enumeration of audience structures up to 2 restrictions x 2 audiences over an 8-value alphabet "
         "(quick: all shapes with <=1 audience per restriction + seeded sample of the rest), complete product of "
         "Destination(8) x Recipient(9) x conv_info(3) x binding(2) x endpoint configuration(5, incl. SPs with no consumer endpoint for the binding used), plus random look-alike "
         "strings; every case is a Response signed by the IdP key and run through parse_authn_request_response. "
         "non-trivial = distinct (restriction shape class, dest class, recipient class, conv, binding, config) on which "
-        "at least one addressing check is exercised with a non-default value")
+        "at least one addressing check is exercised with a non-default value.  "
+        "(2) call sequences on long-lived provider objects in one process: a pool of 8 provider configurations (own/other "
+        "entityID x own/other/swapped/bare/one-binding-only consumer URLs, with and without logout endpoints); for EVERY "
+        "ordered pair of distinct configurations and both bindings: one earlier call on the first object (service_urls / "
+        "create_authn_request / a good login / Config.endpoint of another service; all four kinds in the thorough tier, "
+        "rotating in the quick tier) followed by a Response addressed (Destination, Recipient) to the FIRST object's "
+        "endpoint presented to the SECOND, and the same with the first object's entityID as audience; per configuration "
+        "the same-object sequences (other binding first, logout endpoints first, conv_info first/absent first, foreign "
+        "Recipient first) in both orders; plus seeded random sequences of 3-8 calls over 1-3 objects whose "
+        "Destination/Recipient/Audience values are drawn from the endpoints and entityIDs of ALL objects of the case.  "
+        "non-trivial for a sequence = distinct (per call: kind, object, binding, classes of Destination/Recipient/"
+        "Audience relative to the called object and to the other objects, conv)")
 TRUSTED = ["source-to-Gallina translator harness/py2coq.py + value universe coq/theories/Base/Py.v (for_me is re-translated "
            "from the source text on every run; c04_source_for_me proves it equal to the model)",
-           "xmlsec1 stand-in (harness/standin/xmlsec1.py)", "renderer harness/render.py", "abstraction in harness/c04.py"]
+           "xmlsec1 stand-in (harness/standin/xmlsec1.py)", "renderer harness/render.py", "abstraction in harness/c04.py",
+           "os.fork isolation of the call-sequence observations (harness/c04.py:_zygote/_isolated)"]
 ASSUMPTIONS = ["whitespace padding uses ASCII whitespace only (model's strip is the ASCII part of str.strip)",
-               "everything else about the Response is valid (status, times, signature, InResponseTo)"]
+               "everything else about the Response is valid (status, times, signature, InResponseTo)",
+               "call sequences: the calls of one case are made one after the other in one thread"]
 
 ME = world.SP_ID
 OTHER = "https://other.example.org/sp.xml"
@@ -34,6 +56,172 @@ CONFIGS = {
     "postonly": [(world.SP_ACS_POST, POST)],
     "redironly": [(world.SP_ACS_REDIRECT, REDIRECT)],
 }
+
+
+# ------------------------------------------------------------------ provider objects of the call sequences
+EVIL = "https://evil.example.com/acs"
+SERVICES = ("assertion_consumer_service", "single_logout_service")
+
+
+def _slo(host):
+    return [["https://%s/slo/redirect" % host, REDIRECT], ["https://%s/slo/post" % host, POST]]
+
+
+def _prov(eid, acs, slo):
+    return {"eid": eid, "acs": [list(e) if isinstance(e, (tuple, list)) else e for e in acs], "slo": slo}
+
+
+POOL = {
+    # the standard SP
+    "std": _prov(ME, CONFIGS["default"], [[world.SP_SLO_REDIRECT, REDIRECT], [world.SP_SLO_POST, POST]]),
+    # another tenant: other entityID, other URLs
+    "tenant": _prov("https://sp2.example.org/sp.xml", [("https://sp2.example.org/acs/post", POST),
+                                                      ("https://sp2.example.org/acs/redirect", REDIRECT)], _slo("sp2.example.org")),
+    # same entityID, other consumer URLs (second deployment of the same SP)
+    "moved": _prov(ME, [("https://sp.example.org/acs/post2", POST), ("https://sp.example.org/acs/redirect2", REDIRECT)],
+                   [[world.SP_SLO_REDIRECT, REDIRECT], [world.SP_SLO_POST, POST]]),
+    # other entityID behind the same consumer URLs
+    "alias": _prov("https://sp3.example.org/sp.xml", CONFIGS["default"], []),
+    # same entityID, the two URLs registered for the opposite bindings
+    "swapped": _prov(ME, [(world.SP_ACS_REDIRECT, POST), (world.SP_ACS_POST, REDIRECT)], _slo("sp.example.org")),
+    # bare endpoint (no binding)
+    "bare": _prov("https://sp4.example.org/sp.xml", ["https://sp4.example.org/acs"], []),
+    # consumer endpoint for one binding only
+    "postonly": _prov("https://sp5.example.org/sp.xml", [("https://sp5.example.org/acs/post", POST)], _slo("sp5.example.org")),
+    "redironly": _prov("https://sp6.example.org/sp.xml", [("https://sp6.example.org/acs/redirect", REDIRECT)], _slo("sp6.example.org")),
+}
+
+
+def p_own(prov, binding, service="acs"):
+    """Config.endpoint as the harness understands the configuration (independent of the code under test)."""
+    eps = prov[service]
+    spec = [e[0] for e in eps if not isinstance(e, str) and e[1] == binding]
+    return spec or [e for e in eps if isinstance(e, str)]
+
+
+def p_urls(prov, service="acs"):
+    return [e if isinstance(e, str) else e[0] for e in prov[service]]
+
+
+def s_parse(i, binding, rs, dest, recip, conv):
+    return {"op": "parse", "sp": i, "binding": binding, "rs": rs, "dest": dest, "recip": recip, "conv": conv}
+
+
+def s_good(sps, i, binding, conv=None):
+    """A Response correctly addressed to object i (if it has a consumer endpoint for the binding)."""
+    own = p_own(sps[i], binding)
+    u = own[0] if own else "https://sp.example.org/acs/unregistered"
+    return s_parse(i, binding, [[sps[i]["eid"]]], u, u, conv)
+
+
+def s_call(kind, i, binding, service="single_logout_service"):
+    if kind == "endp":
+        return {"op": "endp", "sp": i, "service": service, "binding": binding}
+    return {"op": kind, "sp": i, "binding": binding}
+
+
+def mk_seq(sps, steps, tag):
+    return {"sps": sps, "steps": steps, "tag": tag}
+
+
+WARM = ("urls", "authn", "login", "endp")
+
+
+def pair_cases(ctx):
+    """Two objects with different configurations: one earlier call on the first, then a Response addressed to
+    the FIRST one presented to the SECOND."""
+    out = []
+    names = list(POOL)
+    n = 0
+    for x in names:
+        for y in names:
+            if x == y:
+                continue
+            sps = [POOL[x], POOL[y]]
+            for binding in (POST, REDIRECT):
+                kinds = WARM if ctx.thorough else (WARM[n % len(WARM)],)
+                n += 1
+                for kind in kinds:
+                    if kind == "login":
+                        warm = s_good(sps, 0, binding)
+                    else:
+                        warm = s_call(kind, 0, binding)
+                    theirs = p_own(sps[0], binding, "slo" if kind == "endp" else "acs") or p_urls(sps[0])
+                    conv = {"entity_id": sps[1]["eid"]}
+                    for u in (theirs if ctx.thorough else theirs[:1]):
+                        out.append(mk_seq(sps, [warm, s_parse(1, binding, [[sps[1]["eid"]]], u, u, conv)], "pair-addr"))
+            # the first object's entityID as audience, at the second; then the second's own Response
+            mine = (p_own(sps[1], POST) or ["https://sp.example.org/acs/unregistered"])[0]
+            out.append(mk_seq(sps, [s_good(sps, 0, POST), s_parse(1, POST, [[sps[0]["eid"]]], mine, mine, None),
+                                    s_good(sps, 1, POST, {"entity_id": sps[1]["eid"]})], "pair-aud"))
+    return out
+
+
+def same_object_cases(ctx):
+    """One long-lived object: what an earlier call (other binding, other service, other conv_info, a refused
+    Response) must not change for a later one."""
+    out = []
+    for name, prov in POOL.items():
+        sps = [prov]
+        conv = {"entity_id": prov["eid"]}
+        for b1, b2 in ((POST, REDIRECT), (REDIRECT, POST)):
+            for u in (p_own(prov, b1) or p_urls(prov))[:1]:
+                attack = s_parse(0, b2, [[prov["eid"]]], u, u, conv)
+                out.append(mk_seq(sps, [s_good(sps, 0, b1), attack, s_good(sps, 0, b2, conv)], "same-binding"))
+                out.append(mk_seq(sps, [s_call("urls", 0, b1), s_call("authn", 0, b1), attack, s_call("urls", 0, b2)], "same-binding"))
+        for b in (POST, REDIRECT):
+            for u in p_own(prov, b, "slo")[:1]:
+                out.append(mk_seq(sps, [s_call("endp", 0, b), s_parse(0, b, [[prov["eid"]]], u, u, conv),
+                                        s_call("urls", 0, b), s_call("endp", 0, b)], "same-service"))
+                out.append(mk_seq(sps, [s_call("urls", 0, b), s_call("endp", 0, b),
+                                        s_call("endp", 0, b, "assertion_consumer_service"),
+                                        s_parse(0, b, [[prov["eid"]]], u, u, conv)], "same-service"))
+        g = (p_own(prov, POST) or ["https://sp.example.org/acs/unregistered"])[0]
+        lax = s_parse(0, POST, [[prov["eid"]]], g, EVIL, None)          # no conv_info: Recipient not examined
+        strict = s_parse(0, POST, [[prov["eid"]]], g, EVIL, conv)       # conv_info: must be refused
+        out.append(mk_seq(sps, [lax, strict, lax], "same-conv"))
+        out.append(mk_seq(sps, [strict, lax, strict], "same-conv"))
+        bad = s_parse(0, POST, [[prov["eid"]]], EVIL, EVIL, conv)
+        out.append(mk_seq(sps, [bad, bad, s_good(sps, 0, POST, conv), bad], "same-repeat"))
+        other = s_parse(0, POST, [[OTHER]], g, g, conv)
+        out.append(mk_seq(sps, [s_good(sps, 0, POST, conv), other, s_parse(0, POST, [[OTHER], [prov["eid"]]], g, g, conv)], "same-aud"))
+    return out
+
+
+def random_sequences(ctx, count):
+    rng = ctx.rng
+    out = []
+    names = list(POOL)
+    for _ in range(count):
+        k = rng.choice([1, 2, 2, 2, 3])
+        chosen = [rng.choice(names) for _ in range(k)] if rng.random() < .25 else rng.sample(names, k)   # twins allowed
+        sps = [POOL[c] for c in chosen]
+        eids = sorted({p["eid"] for p in sps} | {OTHER})
+        urls = sorted({u for p in sps for u in p_urls(p) + p_urls(p, "slo")})
+        steps = []
+        for _ in range(rng.randint(3, 8)):
+            i = rng.randrange(k)
+            b = rng.choice([POST, REDIRECT])
+            r = rng.random()
+            if r < .12:
+                steps.append(s_call("urls", i, b))
+            elif r < .22:
+                steps.append(s_call("authn", i, b))
+            elif r < .34:
+                steps.append(s_call("endp", i, b, rng.choice(SERVICES)))
+            else:
+                good = s_good(sps, i, b)
+                own = good["dest"]
+                addr = [None, "", EVIL, own[:-1], own + "/x"] + urls + urls   # the objects' URLs twice as likely
+                dest = own if rng.random() < .5 else rng.choice(addr)
+                recip = own if rng.random() < .5 else rng.choice(addr + eids)
+                me = sps[i]["eid"]
+                o = rng.choice(eids)
+                rs = [[me]] if rng.random() < .6 else rng.choice([[[o]], [[o], [me]], [[me], [o]], [[o, me]], [], [[me + "x"]], [[me], [" " + me + " "]]])
+                conv = rng.choice([None, {"entity_id": me}, {"entity_id": me, "remote_addr": "192.0.2.7"}, {"remote_addr": "0.0.0.0"}])
+                steps.append(s_parse(i, b, rs, dest, recip, conv))
+        out.append(mk_seq(sps, steps, "seq-random"))
+    return out
 
 
 def regenerate_tables(ctx):
@@ -121,6 +309,15 @@ def generate(ctx):
         binding = rng.choice([POST, REDIRECT])
         own = own_for("default", binding)[0]
         cases.append(mk_case([[ME]], lookalike(rng, own), lookalike(rng, own), rng.choice(convs), binding, "default", "addrlook"))
+    # an own endpoint of ANOTHER service (logout) is not a consumer endpoint
+    for binding, slo in ((POST, world.SP_SLO_POST), (REDIRECT, world.SP_SLO_REDIRECT)):
+        for conv in convs:
+            cases.append(mk_case([[ME]], slo, good_dest[binding], conv, binding, "default", "addrslo"))
+            cases.append(mk_case([[ME]], good_dest[binding], slo, conv, binding, "default", "addrslo"))
+    # call sequences on long-lived provider objects
+    cases += pair_cases(ctx)
+    cases += same_object_cases(ctx)
+    cases += random_sequences(ctx, 700 if ctx.thorough else 60)
     return cases
 
 
@@ -145,48 +342,256 @@ def lookalike(rng, s):
     return s
 
 
+def _single_sp(cfg):
+    return spaccept.get_sp({"sp_endpoints": {
+        "assertion_consumer_service": CONFIGS[cfg],
+        "single_logout_service": [(world.SP_SLO_REDIRECT, REDIRECT), (world.SP_SLO_POST, POST)]}})
+
+
+# ------------------------------------------------------------------ isolation of the call sequences
+# A call-sequence case asks what calls made EARLIER in the same process change.  Its observation must therefore
+# start from a process in which no provider object has been used, whatever this worker did before - otherwise
+# the result would depend on the cases the worker happened to run earlier and a failing case would not replay.
+# Every process that observes (pool worker or driver) owns one "zygote": a child forked at the process's FIRST
+# call of observe(), before anything else was done, which has imported pysaml2, installed stand-in and clock,
+# constructed (and dropped) one standard provider - and never calls into a provider again.  It forks one
+# grandchild per sequence case; the grandchild builds the case's provider objects, makes the calls, writes the
+# result and exits.  (Forking the worker itself per case costs ~10x more here: the worker's heap is written to
+# by the single-Response cases, the zygote's is not.)
+_zy = None   # (owner pid, request write fd, response read file)
+
+
+def _zygote_main(req_r, resp_w):
+    import select
+    import signal
+
+    signal.signal(signal.SIGTERM, signal.SIG_DFL)
+    signal.signal(signal.SIGINT, signal.SIG_IGN)
+    parent = os.getppid()
+    try:
+        world.make_sp()                      # imports + one-time caches; the object is dropped unused
+        spaccept.CLOCK.install()
+        import gc
+        gc.collect()
+        gc.freeze()
+        buf = b""
+        while True:
+            rd, _, _ = select.select([req_r], [], [], 2.0)
+            if not rd:
+                if os.getppid() != parent:
+                    break
+                continue
+            chunk = os.read(req_r, 1 << 16)
+            if not chunk:
+                break
+            buf += chunk
+            while b"\n" in buf:
+                line, buf = buf.split(b"\n", 1)
+                pid = os.fork()
+                if pid == 0:
+                    code = 0
+                    try:
+                        try:
+                            out = {"ok": _observe_seq(json.loads(line))}
+                        except BaseException as e:  # noqa
+                            out = {"err": "%s: %s" % (type(e).__name__, e), "trace": traceback.format_exc()[-1500:]}
+                        os.write(resp_w, (json.dumps(out, default=str) + "\n").encode())
+                    except BaseException:  # noqa
+                        code = 3
+                    finally:
+                        os._exit(code)
+                _, status = os.waitpid(pid, 0)
+                if status != 0:
+                    os.write(resp_w, (json.dumps({"err": "child status %r" % status}) + "\n").encode())
+    finally:
+        os._exit(0)
+
+
+def _zygote():
+    global _zy
+    if _zy is not None and _zy[0] == os.getpid():
+        return _zy
+    if _zy is not None:          # inherited from the process this one was forked from: not ours
+        try:
+            os.close(_zy[1])
+            _zy[2].close()
+        except OSError:
+            pass
+        _zy = None
+    req_r, req_w = os.pipe()
+    resp_r, resp_w = os.pipe()
+    pid = os.fork()
+    if pid == 0:
+        os.close(req_w)
+        os.close(resp_r)
+        _zygote_main(req_r, resp_w)
+    os.close(req_r)
+    os.close(resp_w)
+    _zy = (os.getpid(), req_w, os.fdopen(resp_r, "rb"))
+    return _zy
+
+
+def _isolated(case):
+    _, req_w, resp = _zygote()
+    data = (json.dumps(case) + "\n").encode()
+    while data:
+        data = data[os.write(req_w, data):]
+    line = resp.readline()
+    if not line:
+        raise RuntimeError("C04: the zygote of process %d died on %r" % (os.getpid(), case))
+    out = json.loads(line)
+    if "err" in out:
+        raise RuntimeError("C04 sequence observation failed in the harness: %s\n%s" % (out["err"], out.get("trace", "")))
+    return out["ok"]
+
+
 def observe(case):
-    sp = spaccept.get_sp({"sp_endpoints": {
-        "assertion_consumer_service": CONFIGS[case["cfg"]],
-        "single_logout_service": [(world.SP_SLO_REDIRECT, REDIRECT)]}})
-    a = spaccept.good_assertion()
-    a["conditions"]["audience_restrictions"] = case["rs"]
+    _zygote()        # forked before this process touches any provider object
+    if "steps" in case:
+        return _isolated(case)
+    return _observe_single(case)
+
+
+def _response(step, n):
+    a = spaccept.good_assertion(id="a-%d" % n)
+    a["subject"]["name_id"] = "subject-%d" % n
+    a["conditions"]["audience_restrictions"] = step["rs"]
     d = a["subject"]["confirmations"][0]["data"]
-    if case["recip"] is None:
+    if step["recip"] is None:
         del d["recipient"]
     else:
-        d["recipient"] = case["recip"]
-    r = spaccept.good_response()
-    if case["dest"] is None:
+        d["recipient"] = step["recip"]
+    r = spaccept.good_response(id="r-%d" % n)
+    if step["dest"] is None:
         del r["destination"]
     else:
-        r["destination"] = case["dest"]
+        r["destination"] = step["dest"]
     xml = spaccept.build(r, [a], sign_response="idp")
-    enc = render.b64(xml) if case["binding"] == POST else render.deflate_b64(xml)
+    return xml, (render.b64(xml) if step["binding"] == POST else render.deflate_b64(xml))
+
+
+def _observe_single(case):
+    sp = _single_sp(case["cfg"])
+    xml, enc = _response(case, 1)
     o = spaccept.observe(sp, xml, case["binding"], {"req-1": "/"}, conv_info=case["conv"], encoded=enc)
     return {"identity": o["identity"], "exc": o["exc"]}
 
 
-def coq_specs(cfg):
+def _subjects(sp):
+    try:
+        return {str(x) for x in sp.users.subjects()}
+    except Exception:  # noqa
+        return set()
+
+
+def _parse_step(sp, step, n):
+    """spaccept.observe for an object whose identity cache is NOT reset between calls: identity = the call
+    returned something carrying identity, or the cache holds a subject it did not hold before the call."""
+    xml, enc = _response(step, n)
+    before = _subjects(sp)
+    obs = {"identity": False, "exc": None}
+    r = None
+    try:
+        r = sp.parse_authn_request_response(enc, step["binding"], {"req-1": "/"}, conv_info=step["conv"])
+    except Exception as e:  # noqa
+        obs["exc"] = type(e).__name__
+    if r is not None:
+        nid = getattr(r, "name_id", None)
+        si = None
+        try:
+            si = r.session_info()
+        except Exception:  # noqa
+            si = None
+        obs["identity"] = bool((nid is not None and getattr(nid, "text", None) is not None) or getattr(r, "ava", None)
+                               or getattr(r, "assertion", None) is not None or si is not None)
+    if _subjects(sp) - before:
+        obs["identity"] = True
+    return obs
+
+
+def _observe_seq(case):
+    sps = []
+    for p in case["sps"]:
+        eps = {"assertion_consumer_service": [tuple(e) if isinstance(e, list) else e for e in p["acs"]]}
+        if p["slo"]:
+            eps["single_logout_service"] = [tuple(e) for e in p["slo"]]
+        # no private key of its own (46 ms of RSA key checking per object otherwise): the SP neither signs nor
+        # decrypts anything in these calls
+        sps.append(world.make_sp(entityid=p["eid"], sp_endpoints=eps, key_file=None, encryption_keypairs=None))
+    spaccept.CLOCK.install()
     out = []
-    for e in CONFIGS[cfg]:
-        if isinstance(e, tuple):
+    for n, st in enumerate(case["steps"]):
+        sp = sps[st["sp"]]
+        try:
+            if st["op"] == "parse":
+                out.append(_parse_step(sp, st, n + 1))
+            elif st["op"] == "urls":
+                v = sp.service_urls(st["binding"])
+                out.append({"urls": None if v is None else [str(u) for u in v]})
+            elif st["op"] == "endp":
+                out.append({"endp": [str(u) for u in sp.config.endpoint(st["service"], st["binding"], "sp")]})
+            elif st["op"] == "authn":
+                _rid, req = sp.create_authn_request(world.IDP_SSO_REDIRECT, binding=st["binding"], sign=False)
+                out.append({"acs": getattr(req, "assertion_consumer_service_url", None)})
+            else:
+                raise ValueError(st["op"])
+        except ValueError:
+            raise
+        except Exception as e:  # noqa  (a call that raises is reported as a result of the wrong kind)
+            out.append({"raised": type(e).__name__})
+    excs = [o["exc"] for o in out if o.get("exc")]
+    return {"steps": out, "identity": sum(1 for o in out if o.get("identity")), "exc": excs[0] if excs else None}
+
+
+def coq_eps(eps):
+    out = []
+    for e in eps:
+        if isinstance(e, (tuple, list)):
             out.append(Raw("(EP %s %s)" % (cq(e[0]), cq(e[1]))))
         else:
             out.append(Raw("(Bare %s)" % cq(e)))
     return out
 
 
-def coq_case(case, obs):
-    rs = [[Raw(cq_opt(a)) for a in r] for r in case["rs"]]
-    conv = case["conv"]
+def coq_specs(cfg):
+    return coq_eps(CONFIGS[cfg])
+
+
+def coq_conv(conv):
     if not conv:
-        cconv = "None"
-    else:
-        cconv = "(Some %s)" % cq_opt(conv.get("entity_id"))
-    return "C04.Corr.mk %s %s %s %s %s %s %s %s" % (
-        cq(ME), cq(coq_specs(case["cfg"])), cq(case["binding"]), cq(rs), cq_opt(case["dest"]), cconv,
-        cq_opt(case["recip"]), cq(bool(obs["identity"])))
+        return "None"
+    return "(Some %s)" % cq_opt(conv.get("entity_id"))
+
+
+def coq_parse(ctor, eid, specs, st, identity):
+    rs = [[Raw(cq_opt(a)) for a in r] for r in st["rs"]]
+    return "%s %s %s %s %s %s %s %s %s" % (
+        ctor, cq(eid), cq(specs), cq(st["binding"]), cq(rs), cq_opt(st["dest"]), coq_conv(st["conv"]),
+        cq_opt(st["recip"]), cq(bool(identity)))
+
+
+def coq_case(case, obs):
+    if "steps" not in case:
+        return coq_parse("C04.Corr.mk", ME, coq_specs(case["cfg"]), case, obs["identity"])
+    evs = []
+    for st, o in zip(case["steps"], obs["steps"]):
+        p = case["sps"][st["sp"]]
+        acs = coq_eps(p["acs"])
+        if st["op"] == "parse":
+            evs.append(Raw("(%s)" % coq_parse("C04.Corr.P", p["eid"], acs, st, o["identity"])))
+            continue
+        specs = acs if st["op"] != "endp" or st["service"] == "assertion_consumer_service" else coq_eps(p["slo"])
+        op = {"urls": "OUrls", "endp": "OEndp", "authn": "OAcs"}[st["op"]]
+        if "raised" in o:       # no result of the right kind: the model cannot agree
+            res = "RId false"
+        elif st["op"] == "urls":
+            res = "RUrls %s" % cq_opt(o["urls"])
+        elif st["op"] == "endp":
+            res = "REndp %s" % cq(o["endp"])
+        else:
+            res = "RAcs %s" % cq_opt(o["acs"])
+        evs.append(Raw("(%s %s %s, %s)" % (op, cq(specs), cq(st["binding"]), res)))
+    return cq(evs)
 
 
 def _cls(v, own=None):
@@ -199,7 +604,38 @@ def _cls(v, own=None):
     return "own" if own and v in own else "other"
 
 
+def _rel(v, sps, i, binding):
+    """class of an address / audience value relative to the called object and to the other objects of the case"""
+    if v is None:
+        return "absent"
+    if v == "":
+        return "empty"
+    me = sps[i]
+    if v == me["eid"]:
+        return "eid"
+    if v in p_own(me, binding):
+        return "own"
+    if v in p_urls(me):
+        return "own-other-binding"
+    if v in p_urls(me, "slo"):
+        return "own-logout"
+    for j, p in enumerate(sps):
+        if j != i and (v == p["eid"] or v in p_urls(p) or v in p_urls(p, "slo")):
+            return "theirs"
+    return "other"
+
+
 def nontrivial(case, obs):
+    if "steps" in case:
+        key = []
+        for st in case["steps"]:
+            if st["op"] != "parse":
+                key.append((st["op"], st["sp"], st["binding"][-4:], st.get("service", "")[:3]))
+                continue
+            sps, i, b = case["sps"], st["sp"], st["binding"]
+            key.append(("parse", i, b[-4:], _rel(st["dest"], sps, i, b), _rel(st["recip"], sps, i, b),
+                        tuple(tuple(_rel(a, sps, i, b) for a in r) for r in st["rs"]), bool(st["conv"])))
+        return ("seq", tuple(tuple(sorted(p_urls(p))) + (p["eid"],) for p in case["sps"]), tuple(key))
     own = own_for(case["cfg"], case["binding"])
     shape = tuple(tuple("me" if a == ME else ("pad" if a and a.strip() == ME else ("none" if a is None else "x")) for a in r)
                   for r in case["rs"])
@@ -209,9 +645,21 @@ def nontrivial(case, obs):
 
 
 def histogram(cases, observed):
-    h = {"by_tag": {}, "identity": 0, "rejected": 0, "exceptions": {}}
+    h = {"by_tag": {}, "identity": 0, "rejected": 0, "exceptions": {}, "sequence_cases": 0, "sequence_calls": {},
+         "sequence_lengths": {}}
     for c, o in zip(cases, observed):
         h["by_tag"][c["tag"]] = h["by_tag"].get(c["tag"], 0) + 1
+        if "steps" in c:
+            h["sequence_cases"] += 1
+            n = str(len(c["steps"]))
+            h["sequence_lengths"][n] = h["sequence_lengths"].get(n, 0) + 1
+            for st, so in zip(c["steps"], o["steps"]):
+                h["sequence_calls"][st["op"]] = h["sequence_calls"].get(st["op"], 0) + 1
+                if st["op"] == "parse":
+                    h["identity" if so["identity"] else "rejected"] += 1
+                    if so.get("exc"):
+                        h["exceptions"][so["exc"]] = h["exceptions"].get(so["exc"], 0) + 1
+            continue
         if o["identity"]:
             h["identity"] += 1
         else:
